@@ -723,6 +723,13 @@ def configs_for(name, model_kw, shape_index, ntips, tier, part):
         if not model_kw:
             for ex in ("eigen", "checked", "pade", "either"):
                 out.append(dict(common, lengths=base_lengths(edges), params=pv, pi=pi, expm=ex))
+            if kind == "nuc" and ntips >= 4:
+                # the same tree written with the children of every node in the opposite order (a tip before a clade with
+                # many distinct site patterns, and the reverse): the order in which children are written is not part of the model
+                def rev(t):
+                    return t if isinstance(t, str) else (t[0], [rev(k) for k in reversed(t[1])])
+
+                out.append(dict(common, tree=rev(tree), lengths=base_lengths(edges), params=pv, pi=pi))
             if kind == "nuc" and terms and ntips >= 4:
                 term = terms[0]
                 for a, b in itertools.combinations(tips, 2):
